@@ -402,6 +402,9 @@ def assign(live, op, step, out, stats, log, prefix):
         seq = [v for _, v in vals]
         arg = {"list": list, "tuple": tuple, "array": lambda s: np.array(s, float)}[fmt](seq)
         full = True
+    elif fmt == "array2d":
+        arg = np.array([[float(v) + 0.5 * c_ for c_ in range(int(op.get("cols", 2)))] for _, v in vals], float)
+        full = True
     elif fmt == "pairs":
         arg = [(nm, v) for nm, v in vals]
         full = True
